@@ -66,6 +66,8 @@ CONSTANTS
   Stride = %(stride)d
   Phase = %(phase)d
   NFormats = %(nformats)d
+  NTimeFns = %(ntimefns)d
+  NFormatFns = %(nformatfns)d
   MaxLex = %(maxlex)d
   MaxDeepLex = %(maxdeep)d
   Emit = TRUE
@@ -100,13 +102,9 @@ SHAPES = {
     "powhuge": "2^99999999",
     "deepparen": "(" * 400 + "1" + ")" * 400,
 }
-DATES = {"none": None, "iso": "2001-02-03", "far": "6000-01-01", "year1": "0001-01-01", "digits4": "1230", "word": "foo",
-         "relative": "-1 day", "epochbig": "99999999999", "datetime": "1970-01-01 00:00:00", "negative": "-5"}
-
-
-def mc_cfg(mode, nnames=1, arity=0, stride2=1, stride=1, phase=0, nformats=1, maxlex=1, maxdeep=0):
+def mc_cfg(mode, nnames=1, arity=0, stride2=1, stride=1, phase=0, nformats=1, ntimefns=1, nformatfns=1, maxlex=1, maxdeep=0):
     return MC_CFG % dict(mode=mode, nnames=nnames, arity=arity, stride2=stride2, stride=stride, phase=phase,
-                         nformats=nformats, maxlex=maxlex, maxdeep=maxdeep)
+                         nformats=nformats, ntimefns=ntimefns, nformatfns=nformatfns, maxlex=maxlex, maxdeep=maxdeep)
 
 
 def format_table():
@@ -116,9 +114,37 @@ def format_table():
     return sorted(k for k in magic_time.CODENAMES if k != "xr")
 
 
-def time_text(code, pre, date):
-    f = ("xr" if pre == "xr" else "") + code
-    return "{{#time:%s}}" % f if DATES[date] is None else "{{#time:%s|%s}}" % (f, DATES[date])
+TIMEISH = ("time", "date", "day", "month", "year", "week", "hour", "dow")
+
+
+def time_fn_table(lang):
+    """The names of the site that deal with dates, from the running code: first those that resolve to the
+    #time node (they take a format), then every TimeMagic / LocaltimeMagic word and every other
+    magic word whose canonical name mentions a date/time unit.  -> (names, number of format-taking ones)"""
+    import mwlib.network.fetch  # noqa: F401
+    from mwlib.parser.templ import magic_nodes, magics
+    clock = set(vars(magics.TimeMagic)) | set(vars(magics.LocaltimeMagic))
+    fmt, other = [], []
+    for n in name_table(lang):
+        canon = canonical(lang, n)
+        if magic_nodes.registry.get(canon.lower()) is magic_nodes.Time:
+            fmt.append(n)
+        elif canon in clock or any(w in canon.lower() for w in TIMEISH):
+            other.append(n)
+    return fmt + other, len(fmt)
+
+
+def time_text(fn, code, pre, date):
+    """fn: the name as written; code: a format code or None; date: token list (["NONE"]: no date argument)."""
+    d = None if date == ["NONE"] else "".join(date)
+    args = []
+    if code is not None:
+        args.append(("xr" if pre == "xr" else "") + code)
+    if d is not None:
+        args.append(d)
+    return "{{%s}}" % fn if not args else "{{%s:%s}}" % (fn, "|".join(args))
+
+
 WATCHDOG_S = 60          # only for hangs; a normal call takes milliseconds
 # proportionality (measured, generous): a call with an inflated argument vs. its small twin
 OUT_C, OUT_K = 20, 4000            # len(output) <= OUT_C * len(arguments) + OUT_K
@@ -324,16 +350,20 @@ def _call_worker(args):
 
 
 def _time_worker(args):
-    idx, formats, cases, scratch = args
-    db = site_db(scratch, "en")
+    idx, lang, fns, formats, cases, scratch = args
+    db = site_db(scratch, lang)
     bad = []
     for c in cases:
-        code = formats[c["f"] - 1]
-        text = time_text(code, c["pre"], c["date"])
+        fn = fns[c["fn"] - 1]
+        code = formats[c["f"] - 1] if c["f"] else None
+        text = time_text(fn, code, c["pre"], c["date"])
         m = measure(db, text)
-        if not m["ok"]:
-            bad.append(("expandTemplates %s fn=#TIME format=%s%s date=%s" % (m["cls"], "xr" if c["pre"] == "xr" else "", code, c["date"]),
-                        "%s raised/failed: %s (innermost mwlib frame %s)" % (text, m["err"], m["where"]), {"kind": "time", "f": code, "pre": c["pre"], "date": c["date"]}))
+        if not m["ok"] or m["out_len"] > OUT_C * len(text) + OUT_K:
+            what = m["err"] if not m["ok"] else "%d characters of output" % m["out_len"]
+            bad.append(("expandTemplates %s fn=%s format=%s date=%s" % (m["cls"] or "Disproportionate", canonical(lang, fn),
+                                                                       (("xr" if c["pre"] == "xr" else "") + code) if code else "-", json.dumps("".join(c["date"])[:24])),
+                        "%s raised/failed: %s (innermost mwlib frame %s)" % (text[:120], what, m["where"]),
+                        {"kind": "time", "lang": lang, "fn": fn, "f": code, "pre": c["pre"], "date": c["date"]}))
     return len(cases), bad
 
 
@@ -513,7 +543,8 @@ def run(ctx):
         f_calls[lang] = T("MagicCalls", mc_cfg("calls", nnames=len(tables[lang]), arity=3, stride=stride, stride2=stride2, phase=ctx.seed + li),
                           "MagicCalls_%s" % lang)
     formats = format_table()
-    f_time = T("MagicCalls", mc_cfg("time", nformats=len(formats)), "MagicCalls_time")
+    tfns, nfmt = time_fn_table("en")
+    f_time = T("MagicCalls", mc_cfg("time", nformats=len(formats), ntimefns=len(tfns), nformatfns=nfmt), "MagicCalls_time")
     f_junk = T("MagicCalls", mc_cfg("junk", maxlex=3, maxdeep=2), "MagicCalls_junk", coverage=True)
     ex.shutdown(wait=False)
 
@@ -589,11 +620,13 @@ def run(ctx):
     states += res.distinct
     trans += res.generated
     tcases = res.emitted
-    n_time, bad = pool_run(ctx, _time_worker, [(i, formats, tcases[i::ctx.ncpu], root) for i in range(ctx.ncpu) if tcases[i::ctx.ncpu]])
+    nj = ctx.ncpu * 4
+    n_time, bad = pool_run(ctx, _time_worker, [(i, "en", tfns, formats, tcases[i::nj], root) for i in range(nj) if tcases[i::nj]])
     if n_time != len(tcases):
         ctx.machinery("executed %d of %d #time cases" % (n_time, len(tcases)))
     allbad.extend(bad)
-    ctx.note("MagicCalls time: %d format codes x 2 prefixes x %d dates = %d calls, %d disagreements" % (len(formats), len(DATES), n_time, len(bad)))
+    ctx.note("MagicCalls time: %d date/time names (%d take a format) x (no format + %d codes x 2 prefixes) x %d date shapes = %d calls, %d disagreements"
+             % (len(tfns), nfmt, len(formats), len({"".join(c["date"]) for c in tcases}), n_time, len(bad)))
 
     res = f_junk.result()
     if not res.ok or tlc.uncovered_actions(res, ["Hand"]):
@@ -633,7 +666,10 @@ def run(ctx):
                        "TLC enumerates from MagicCalls.tla over the name table generated from the running code for sites %r (arity 0..2 "
                        "complete in thorough; in quick arity 0..1 complete, arity 2 / 3 thinned by strides 40 / 1000; thorough: en 1 / 20, other sites 8 / 100; 23 shapes = 10 base + 13 'arithmetic at the edges', at most one edge shape per tuple) — each is a distinct (name, shapes) input; (3) every "
                        "sequence of <= 3 lexemes over the 23-lexeme template alphabet (those of <= 2 lexemes also repeated 3000 times), as page and as "
-                       "template body; (4) every #time format code of magic_time.CODENAMES, alone and behind 'xr', x 10 date shapes" % (vm_plans, langs))
+                       "template body; (4) every date/time name of the site (table from the running code; #time and aliases with every format code of "
+                       "magic_time.CODENAMES, alone and behind 'xr', and without format) x the date-shape class of MagicCalls.tla (digit-string "
+                       "readings and ISO forms with one field at a boundary / first out-of-range value, digit runs of length 1..14, 40, 400, "
+                       "relative words, unix stamps, garbage, empty, none)" % (vm_plans, langs))
     for c in vm_cases[:: max(1, len(vm_cases) // 2)][:2]:
         ctx.sample({"univ": c["univ"], "page": c["page"], "limit": c["limit"], "predicted_out": c["out"], "predicted_lookups": c["log"]})
     for s in samples:
@@ -661,7 +697,9 @@ def replay(ctx, path):
         n, bad = _junk_worker((0, [{"lex": rp["lex"], "rep": rp.get("rep", 1)}], root))
     elif rp["kind"] == "time":
         formats = format_table()
-        n, bad = _time_worker((0, formats, [{"f": formats.index(rp["f"]) + 1, "pre": rp["pre"], "date": rp["date"]}], root))
+        lang = rp.get("lang", "en")
+        n, bad = _time_worker((0, lang, [rp["fn"]], formats, [{"fn": 1, "f": formats.index(rp["f"]) + 1 if rp["f"] else 0,
+                                                                 "pre": rp["pre"], "date": rp["date"]}], root))
     else:
         names = name_table(rp["lang"])
         n, bad = _call_worker((0, rp["lang"], names, [{"n": names.index(rp["name"]) + 1, "s": rp["shapes"], "twin": rp["twin"]}], root))
